@@ -118,6 +118,7 @@ def run(model: Model, rep: Report) -> None:
     r4.check("ifself.reversed:bits=[1-bforbinbits]" in s4 and "arr[i//8]+=" in s4 and "(len(bits)+7)//8" in s4, site(ol), ol.qualname, "rows are packed into ceil(width / 8) bytes; BlackIs1 inverts every bit", why="row packing changed")
     _mode_geometry(model, rep)
     _run_lengths(model, rep)
+    _horizontal_paint(model, rep)
 
 
 def _mode_geometry(model: Model, rep: Report) -> None:
@@ -219,3 +220,20 @@ def _run_lengths(model: Model, rep: Report) -> None:
             r6.check(len(z) == 1 and unparse(z[0].value) == "0", site(f), f.qualname, f"the second run starts from 0 when the first run's terminating code arrives", why=f"{[unparse(x) for x in z]}")
     z1 = [n for n in walk_no_nested(pm.node) if isinstance(n, ast.Assign) and any(unparse(t) == "self._n1" for t in n.targets)]
     r6.check(len(z1) == 1 and unparse(z1[0].value) == "0", site(pm), pm.qualname, "horizontal mode starts the first run from 0", why=f"{[unparse(x) for x in z1]}")
+
+
+def _horizontal_paint(model: Model, rep: Report) -> None:
+    r7 = rep.rule("C19-R7", "NORMFORM", "horizontal mode paints n1 pixels of the current colour, then n2 of the other, from a0 (0 at the start of a row), clipped to the row; a0 ends after both runs", 3)
+    f = model.func(C + "CCITTG4Parser._do_horizontal")
+    s_ = "".join(unparse(f.node).split())
+    n1, n2 = (f.params[1], f.params[2]) if len(f.params) > 2 else ("n1", "n2")
+    r7.check("ifself._curpos<0:self._curpos=0" in s_ and "x=self._curpos" in s_ and s_.endswith("self._curpos=x"), site(f), f.qualname, "the runs start at a0 (0 when a0 is still before the row) and a0 moves to their end", why="start/end changed")
+    loops = [n for n in f.node.body if isinstance(n, ast.For)]  # type: ignore[attr-defined]
+    ok = len(loops) == 2
+    if ok:
+        for lp, n, val in ((loops[0], n1, "self._color"), (loops[1], n2, "1-self._color")):
+            b = "".join(unparse(ast.Module(body=lp.body, type_ignores=[])).split())
+            ok = ok and "".join(unparse(lp.iter).split()) == f"range({n})" and b == f"iflen(self._curline)<=x:breakself._curline[x]={val}x+=1"
+    r7.check(ok, site(f), f.qualname, f"first run: {n1} pixels of the current colour; second run: {n2} pixels of the opposite colour; both stop at the end of the row", why="run loops changed")
+    hz = model.func(C + "CCITTG4Parser._parse_horiz2")
+    r7.check(f"self._do_horizontal(self._n1,self._n2)" in "".join(unparse(hz.node).split()), site(hz), hz.qualname, "the two accumulated run lengths are painted in order (first, second)", why="call changed")
